@@ -839,10 +839,24 @@ def _validate_skip_unknown(skip_unknown):
     raise ValueError(err_str.format(skip_unknown))
 
 
+def _is_known_selector(selector):
+  """Checks whether `selector` names a configurable known to the current parse."""
+  context = _parse_context()
+  if context._dynamic_registration:  # pylint: disable=protected-access
+    # With dynamic registration, a name is known iff it can be resolved through
+    # the imports of the file being parsed (it may not be registered yet).
+    try:
+      context._resolve_selector(selector)  # pylint: disable=protected-access
+    except (NameError, AttributeError):
+      return False
+    return True
+  return bool(_REGISTRY.matching_selectors(selector))
+
+
 def _should_skip(selector, skip_unknown):
   """Checks whether `selector` should be skipped (if unknown)."""
   _validate_skip_unknown(skip_unknown)
-  if _REGISTRY.matching_selectors(selector):
+  if _is_known_selector(selector):
     return False  # Never skip known configurables.
   if isinstance(skip_unknown, (list, tuple, set)):
     return selector in skip_unknown
